@@ -22,23 +22,6 @@ open MV MV.I Finset
 
 /-! ## the model, spelled out -/
 
-/-- the triple `(s, t, n)` returned by the series loop of `gammaRegIWith` -/
-def gammaLoop (a x : ℚ) : ℕ × ℕ × ℕ :=
-  gammaRegIWith.go a.num.toNat a.den x.num.toNat x.den 100000 0 I.scaleN I.scaleN
-
-/-- the enclosure of the series formed from the loop's result, verbatim from the model -/
-def gammaSerOf (p : ℕ × ℕ × ℕ) : I :=
-  let one : Nat := I.scaleN
-  let m : Rat := ((p.2.2 + 2 : Nat) : Rat)
-  ⟨ratMax 1 ((((p.1 : Rat) - m * m) / (1 + m / (one : Rat))) / (one : Rat)),
-    ((p.1 : Rat) + 2 * (p.2.1 : Rat) + 1) / (one : Rat)⟩
-
-/-- the series part of `gammaRegIWith`: `none` when the loop ran out of fuel before the ratio
-dropped to `1/2`, otherwise the interval `ser` -/
-def gammaSer (a x : ℚ) : Option I :=
-  if x / (a + (((gammaLoop a x).2.2 + 1 : Nat) : Rat)) > 1 / 2 then none
-  else some (gammaSerOf (gammaLoop a x))
-
 /-- the enclosure of the exponent `a·log x − x − log Γ(a+1)` used by the series branch -/
 def gammaSeriesExp (lg : I) (a x : ℚ) : I :=
   I.sub (I.sub (I.scale a (I.logQ x)) (I.ofRat x)) lg
